@@ -1054,11 +1054,12 @@ func (g *Gen) multiOutCase(i int) Group {
 		}
 	} else {
 		k := 2 + g.n(2)
+		allIface := g.p(0.25)
 		m.Form = Form{Kind: "ctor", Err: g.p(0.3)}
 		for j := 0; j < k; j++ {
 			t := pick(j)
 			st := t
-			if g.p(0.3) {
+			if g.p(0.3) || allIface {
 				st = 16 + (j+i)%4 // declared as an interface, implemented by the concrete type
 			}
 			m.Form.Rets = append(m.Form.Rets, st)
@@ -1073,7 +1074,28 @@ func (g *Gen) multiOutCase(i int) Group {
 		}
 	}
 	outs := regOutputs(m)
-	if g.p(0.3) {
+	allNil := false
+	if m.Form.Kind == "ctor" {
+		allNil = true
+		for _, t := range m.Form.Rets {
+			if t < 16 {
+				allNil = false
+			}
+		}
+		allNil = allNil && g.p(0.6)
+	} else if g.p(0.06) {
+		allNil = true
+	}
+	if g.forceReplace {
+		allNil = false // (which singletons were built before a failing one is up to the order: not a C06 matter)
+	}
+	if allNil {
+		// the constructor leaves every output nil: it still runs once per Build / scope (multi-return), or fails as a
+		// whole with "produced no services" (result object), every time it is asked
+		for k := range m.Dyn {
+			m.Dyn[k] = tNilOut
+		}
+	} else if g.p(0.3) {
 		// the constructor leaves one of its plain outputs nil: nothing is provided for it, the constructor still
 		// runs once per Build / scope, and its other outputs are not replaced when the nil one is asked for
 		var cand []int
